@@ -453,8 +453,13 @@ impl<'w, 'k, W: Write> Struct<'w, 'k, W> {
             // Text was written so we don't need to indent next field
             self.write_indent = false;
         } else if key == VALUE_KEY {
-            // If element was written then we need to indent next field unless it is a text field
-            self.write_indent = value.serialize(ser)?.allow_indent();
+            // If element was written then we need to indent next field unless it is a text field.
+            // If nothing was written (unit), the state is not changed, otherwise the indent
+            // could be written right after a text
+            let result = value.serialize(ser)?;
+            if result != WriteResult::Nothing {
+                self.write_indent = result.allow_indent();
+            }
         } else {
             value.serialize(ElementSerializer {
                 key: XmlName::try_from(key)?,
